@@ -439,7 +439,8 @@ Definition PInv (st : state) : Prop :=
   | WaitShares => sk st = dealt self
   | WaitCommits | WaitReveals => Comb st
   | Done a b c => Comb st /\ DoneFacts st a b c
-  | Failed | Panicked => True
+  | Failed => ctx_done st = true \/ Comb st          (* an error either by cancellation or after combineShares *)
+  | Panicked => True
   end.
 
 Lemma key_list_lookup pk ps l p : key_list pk ps = Some l -> In p ps -> exists v, lookup pk p = Some v.
@@ -463,13 +464,15 @@ Proof.
     intros p v Hp Hne L. destruct (key_list_lookup _ _ _ p H4 Hp) as [v' L'].
     assert (v = v') by (apply Ep in L'; congruence). subst v'.
     destruct (H5 p v Hp Hne L') as [c [Lc Hc]]. eauto.
+  - intros [Hc|[H1 H2]]; [left; exact Hc|right; split; [eapply combine_extends; eauto|auto]].
 Qed.
 
 Lemma finish_inv st : Comb st -> PInv (fst (finish st)).
 Proof.
-  intros HC. unfold finish. destruct (validate (commits st) (pkeys st)) eqn:Ev; simpl; try exact I.
+  intros HC. unfold finish. destruct (validate (commits st) (pkeys st)) eqn:Ev; simpl; try exact I;
+    [|right; exact HC].
   destruct (key_list (pkeys st) parties) as [l|] eqn:K; simpl; [|exact I].
-  destruct (crosscheck l) eqn:X; simpl; [|exact I].
+  destruct (crosscheck l) eqn:X; simpl; [|right; exact HC].
   unfold PInv. simpl. split; [exact HC|]. unfold DoneFacts. simpl. repeat split; auto.
   intros p v _ Hne L. eapply validate_ok; eauto. now apply lookup_some_in.
 Qed.
@@ -504,11 +507,12 @@ Proof.
   - apply PInv_extends; auto using extends_refl, extends_put.
   - apply PInv_extends; auto using extends_refl, extends_put.
   - unfold wake. destruct (waiting (ph st)) eqn:Hw; [|exact HI].
-    destruct (ctx_done st); [exact I|].
+    destruct (ctx_done st) eqn:Hc; [left; exact Hc|].
     unfold PInv in HI. destruct (ph st) eqn:Hp; try discriminate.
     + now apply wake_shares_inv.
     + now apply wake_commits_inv.
     + now apply wake_reveals_inv.
+  - unfold PInv in *. simpl. destruct (ph st); auto.
 Qed.
 
 Lemma run_inv st evs : PInv st -> PInv (fst (run st evs)).
@@ -662,8 +666,11 @@ Proof. apply filter_length_remove; assumption. Qed.
 
 Lemma others_spec p : In p others <-> In p parties /\ p <> self.
 Proof.
-  unfold others. rewrite filter_In. destruct (Nat.eqb_spec p self); simpl; split; intros [H1 H2]; auto; try discriminate.
-  contradiction.
+  unfold others. rewrite filter_In. destruct (Nat.eqb_spec p self) as [->|Hne]; simpl; split.
+  - intros [_ H0]; discriminate.
+  - intros [_ H0]; contradiction.
+  - tauto.
+  - tauto.
 Qed.
 
 Lemma keys_length {A} (m : list (nat * A)) : length (keys m) = length m.
@@ -674,15 +681,17 @@ Lemma full_cover {A} (m : list (nat * A)) (L : list nat) p :
   NoDup (keys m) -> incl (keys m) L -> length m = length L -> In p L -> lookup m p <> None.
 Proof.
   intros Hn Hi Hl Hp E. apply lookup_none_keys in E. apply E.
-  apply (NoDup_length_incl Hn); auto. rewrite keys_length. lia.
+  apply (@NoDup_length_incl nat (keys m) L Hn); auto. rewrite keys_length. lia.
 Qed.
+
+Definition terminal (p : phase) : Prop := p = Failed \/ exists a b c, p = Done a b c.
 
 Definition NInv (st : state) : Prop :=
   NoDup (keys (shares st)) /\ incl (keys (shares st)) others /\
   NoDup (keys (commits st)) /\ incl (keys (commits st)) others /\
   NoDup (keys (pkeys st)) /\
   (ph st = WaitShares -> incl (keys (pkeys st)) others) /\
-  (ph st <> WaitShares -> incl (keys (pkeys st)) parties /\ lookup (pkeys st) self <> None) /\
+  (ph st = WaitCommits \/ ph st = WaitReveals -> incl (keys (pkeys st)) parties /\ lookup (pkeys st) self <> None) /\
   (ph st = WaitReveals -> length (commits st) = n - 1) /\
   ph st <> Panicked.
 
@@ -699,3 +708,709 @@ Proof.
   destruct Hx as [Hx|[<-|[]]]; auto. fold (keys (del m k)) in Hx. rewrite keys_del in Hx.
   apply filter_In in Hx. apply Hi. tauto.
 Qed.
+
+Lemma others_incl : incl others parties.
+Proof. intros p Hp. apply others_spec in Hp. tauto. Qed.
+
+Lemma put_length_present {A} (m : list (nat * A)) k v : lookup m k <> None -> put m k v = m.
+Proof. unfold put. destruct (lookup m k); [reflexivity|congruence]. Qed.
+
+Lemma NInv_terminal st P : NInv st -> terminal P -> NInv (set_ph st P).
+Proof.
+  intros (N1 & N2 & N3 & N4 & N5 & N6 & N7 & N8 & N9) HT.
+  destruct HT as [->|(a & b & c & ->)]; unfold NInv; simpl; repeat split; auto; try discriminate;
+    try (intros [HH|HH]; discriminate HH);
+    try (match goal with Hor : _ \/ _ |- _ => destruct Hor as [HH|HH]; discriminate HH end).
+Qed.
+
+Lemma NInv_to_reveals st : NInv st -> ph st = WaitCommits -> length (commits st) = n - 1 -> NInv (set_ph st WaitReveals).
+Proof.
+  intros (N1 & N2 & N3 & N4 & N5 & N6 & N7 & N8 & N9) Hp Hl.
+  unfold NInv. simpl. repeat split; auto; try discriminate; apply N7; auto.
+Qed.
+
+Lemma finish_ninv st : NInv st -> ph st = WaitReveals -> length (pkeys st) = n -> NInv (fst (finish st)).
+Proof.
+  intros HN Hp Hl. assert (HN' := HN). destruct HN' as (N1 & N2 & N3 & N4 & N5 & N6 & N7 & N8 & N9).
+  assert (Hnw : ph st = WaitCommits \/ ph st = WaitReveals) by auto. destruct (N7 Hnw) as [N7a N7b].
+  assert (Hc : length (commits st) = n - 1) by auto.
+  unfold finish.
+  destruct (validate (commits st) (pkeys st)) eqn:Ev; simpl.
+  - destruct (key_list (pkeys st) parties) as [l|] eqn:K; simpl.
+    + destruct (crosscheck l); apply NInv_terminal; auto; [right; eauto|left; reflexivity].
+    + exfalso. revert K. apply key_list_total. intros p Hpp. apply (full_cover (pkeys st) parties); auto.
+  - apply NInv_terminal; auto. left; reflexivity.
+  - exfalso. revert Ev. apply validate_no_panic. intros p v Hin Hne.
+    apply (full_cover (commits st) others); auto; [now rewrite others_length|].
+    apply others_spec. split; [|assumption]. apply N7a. apply (in_map fst) in Hin. exact Hin.
+Qed.
+
+Lemma wake_reveals_ninv st : NInv st -> ph st = WaitReveals -> NInv (fst (wake_reveals st)).
+Proof.
+  intros HN Hp. unfold wake_reveals. destruct (Nat.eqb_spec (length (pkeys st)) n); [now apply finish_ninv|exact HN].
+Qed.
+
+Lemma wake_commits_ninv st : NInv st -> ph st = WaitCommits -> NInv (fst (wake_commits st)).
+Proof.
+  intros HN Hp. unfold wake_commits. destruct (Nat.eqb_spec (length (commits st)) (n - 1)) as [E|E]; [|exact HN].
+  assert (HN' := HN). destruct HN' as (N1 & N2 & N3 & N4 & N5 & N6 & N7 & N8 & N9).
+  assert (Hnw : ph st = WaitCommits \/ ph st = WaitReveals) by auto. destruct (N7 Hnw) as [N7a N7b].
+  destruct (lookup (pkeys st) self) eqn:L; [|congruence].
+  assert (H1 : NInv (set_ph st WaitReveals)) by (apply NInv_to_reveals; auto).
+  assert (H2 := wake_reveals_ninv (set_ph st WaitReveals) H1 eq_refl).
+  destruct (wake_reveals (set_ph st WaitReveals)). exact H2.
+Qed.
+
+Lemma wake_shares_ninv st : NInv st -> ph st = WaitShares -> NInv (fst (wake_shares st)).
+Proof.
+  intros HN Hp. unfold wake_shares. destruct (Nat.eqb_spec (length (shares st)) (n - 1)) as [E|E]; [|exact HN].
+  assert (HN' := HN). destruct HN' as (N1 & N2 & N3 & N4 & N5 & N6 & N7 & N8 & N9).
+  destruct (combine (shares st) others (sk st)) as [s|] eqn:Ec.
+  - match goal with |- context [wake_commits ?x] => assert (H2 := wake_commits_ninv x); destruct (wake_commits x) end.
+    apply H2; [|reflexivity]. unfold NInv. simpl. repeat split; auto; try discriminate.
+    + now apply keys_set_nodup.
+    + apply keys_set_incl; [|exact self_in]. intros x Hx. apply others_incl. apply (N6 Hp). exact Hx.
+    + rewrite lookup_set_same. discriminate.
+  - exfalso. revert Ec. apply combine_total. intros p Hpp.
+    apply (full_cover (shares st) others); auto. now rewrite others_length.
+Qed.
+
+Lemma NInv_init : NInv init.
+Proof.
+  unfold NInv, init. simpl.
+  split; [constructor|]. split; [intros x []|]. split; [constructor|]. split; [intros x []|]. split; [constructor|].
+  split; [intros _ x []|]. split; [intros [HH|HH]; discriminate HH|]. split; [intros HH; discriminate HH|discriminate].
+Qed.
+
+Lemma step_ninv st e : NInv st -> ev_ok e -> NInv (fst (step st e)).
+Proof.
+  intros HN Hok. assert (HN' := HN). destruct HN' as (N1 & N2 & N3 & N4 & N5 & N6 & N7 & N8 & N9).
+  destruct e as [f v|f c|f [v|]| |]; simpl in *; auto.
+  - unfold NInv; simpl. split; [now apply keys_put_nodup|]. split; [now apply keys_put_incl|]. auto 10.
+  - unfold NInv; simpl. split; [auto|]. split; [auto|]. split; [now apply keys_put_nodup|].
+    split; [now apply keys_put_incl|]. split; [auto|]. split; [auto|]. split; [auto|]. split; [|auto].
+    intros Hp. rewrite put_length_present; auto.
+    apply (full_cover (commits st) others); auto. rewrite others_length. auto.
+  - unfold NInv; simpl. split; [auto|]. split; [auto|]. split; [auto|]. split; [auto|].
+    split; [now apply keys_put_nodup|]. split; [intros Hp; apply keys_put_incl; auto|]. split; [|auto].
+    intros Hp. destruct (N7 Hp) as [Ha Hs]. split.
+    + apply keys_put_incl; auto. now apply others_incl.
+    + destruct (lookup (pkeys st) self) eqn:L; [|congruence]. rewrite (lookup_put_some _ f v self v0 L). discriminate.
+  - unfold wake. destruct (waiting (ph st)) eqn:Hw; [|exact HN].
+    destruct (ctx_done st); [apply NInv_terminal; auto; left; reflexivity|].
+    destruct (ph st) eqn:Hp; try discriminate.
+    + now apply wake_shares_ninv.
+    + now apply wake_commits_ninv.
+    + now apply wake_reveals_ninv.
+Qed.
+
+Lemma run_ninv st evs : NInv st -> Forall ev_ok evs -> NInv (fst (run st evs)).
+Proof.
+  revert st. induction evs as [|e evs IH]; intros st HN Hok; simpl; auto.
+  inversion Hok; subst. change (NInv (fst (run st (e :: evs)))). rewrite run_cons_fst.
+  apply IH; auto. now apply step_ninv.
+Qed.
+
+(* No event list whose deliveries come from other session participants drives KeyGen into one of its
+   "programming error" panics (nil share, missing commitment, missing public key). *)
+Theorem never_panics evs : Forall ev_ok evs -> ph (final evs) <> Panicked.
+Proof. intros Hok. apply (run_ninv init evs NInv_init Hok). Qed.
+
+(* ================================================================ what the party broadcasts *)
+(* every commitment / key it ever broadcasts is that of its combined secret, which never changes afterwards *)
+Definition BInv (st : state) (outs : list output) : Prop :=
+  (forall v, In (BcastReveal v) outs -> v = pub (sk st) /\ ph st <> WaitShares) /\
+  (forall c, In (BcastCommit c) outs -> c = H (pub (sk st)) /\ ph st <> WaitShares).
+
+Lemma finish_sk st : sk (fst (finish st)) = sk st /\ (ph st <> WaitShares -> ph (fst (finish st)) <> WaitShares).
+Proof.
+  unfold finish. destruct (validate _ _); simpl; try (split; [reflexivity|intros; discriminate]).
+  destruct (key_list _ _); simpl; [|split; [reflexivity|intros; discriminate]].
+  destruct (crosscheck l); simpl; split; auto; intros; discriminate.
+Qed.
+
+Lemma wake_reveals_sk st : ph st = WaitReveals ->
+  sk (fst (wake_reveals st)) = sk st /\ ph (fst (wake_reveals st)) <> WaitShares.
+Proof.
+  intros Hp. unfold wake_reveals. destruct (_ =? _).
+  - destruct (finish_sk st) as [H1 H2]. split; auto. apply H2. congruence.
+  - simpl. split; auto. congruence.
+Qed.
+
+Lemma wake_commits_sk st : ph st = WaitCommits -> Comb st ->
+  sk (fst (wake_commits st)) = sk st /\ ph (fst (wake_commits st)) <> WaitShares /\
+  forall o, In o (snd (wake_commits st)) -> o = BcastReveal (pub (sk st)) \/ exists r, o = Return r.
+Proof.
+  intros Hp [_ Hs]. unfold wake_commits. destruct (_ =? _); [|simpl; repeat split; auto; [congruence|tauto]].
+  rewrite Hs. destruct (wake_reveals_sk (set_ph st WaitReveals) eq_refl) as [H1 H2].
+  assert (Ho := wake_reveals_outputs (set_ph st WaitReveals)).
+  destruct (wake_reveals (set_ph st WaitReveals)) as [st' outs]. simpl in *. repeat split; auto.
+  intros o [<-|Hin]; auto.
+Qed.
+
+Lemma BInv_same st st' outs new :
+  sk st' = sk st -> (ph st <> WaitShares -> ph st' <> WaitShares) ->
+  (forall o, In o new -> exists r, o = Return r) ->
+  BInv st outs -> BInv st' (outs ++ new).
+Proof.
+  intros Hs Hp Hn [B1 B2]. split; intros x Hin; apply in_app_or in Hin; destruct Hin as [Hin|Hin].
+  - destruct (B1 x Hin). rewrite Hs. auto.
+  - destruct (Hn _ Hin) as [r Hr]. discriminate.
+  - destruct (B2 x Hin). rewrite Hs. auto.
+  - destruct (Hn _ Hin) as [r Hr]. discriminate.
+Qed.
+
+Lemma step_binv st e outs : PInv st -> BInv st outs -> BInv (fst (step st e)) (outs ++ snd (step st e)).
+Proof.
+  intros HP HB.
+  destruct e as [f v|f c|f [v|]| |]; simpl; try (rewrite app_nil_r; exact HB).
+  unfold wake. destruct (waiting (ph st)) eqn:Hw; [|simpl; rewrite app_nil_r; exact HB].
+  destruct (ctx_done st).
+  { apply (BInv_same st); auto; simpl; [intros; discriminate|intros o [<-|[]]; eauto]. }
+  unfold PInv in HP. destruct (ph st) eqn:Hp; try discriminate.
+  - (* WaitShares: nothing was broadcast so far *)
+    assert (Hno : forall o, In o outs -> (forall v, o <> BcastReveal v) /\ (forall c, o <> BcastCommit c)).
+    { destruct HB as [B1 B2]. intros o Hin. split; intros x ->; [destruct (B1 x Hin)|destruct (B2 x Hin)]; congruence. }
+    unfold wake_shares. destruct (_ =? _); [|simpl; rewrite app_nil_r; exact HB].
+    destruct (combine (shares st) others (sk st)) as [s|] eqn:Ec.
+    + match goal with |- context [wake_commits ?x] =>
+        assert (Hc : Comb x) by (split; simpl; [now rewrite <- HP|apply lookup_set_same]);
+        destruct (wake_commits_sk x eq_refl Hc) as (H1 & H2 & H3); destruct (wake_commits x) as [st' o'] end.
+      simpl in *. split; intros x Hin; apply in_app_or in Hin; destruct Hin as [Hin|Hin].
+      * exfalso. destruct (Hno _ Hin) as [Hn _]. apply (Hn x). reflexivity.
+      * destruct Hin as [Hin|Hin]; [discriminate|]. destruct (H3 _ Hin) as [[= ->]|[r Hr]]; [|discriminate].
+        rewrite H1. auto.
+      * exfalso. destruct (Hno _ Hin) as [_ Hn]. apply (Hn x). reflexivity.
+      * destruct Hin as [[= <-]|Hin]; [rewrite H1; auto|]. destruct (H3 _ Hin) as [Hr|[r Hr]]; discriminate.
+    + simpl. rewrite app_nil_r. destruct HB as [B1 B2].
+      split; intros x Hin; exfalso; destruct (Hno _ Hin) as [Hn1 Hn2]; [apply (Hn1 x)|apply (Hn2 x)]; reflexivity.
+  - destruct (wake_commits_sk st Hp HP) as (H1 & H2 & H3). destruct HB as [B1 B2].
+    split; intros x Hin; apply in_app_or in Hin; destruct Hin as [Hin|Hin].
+    + destruct (B1 x Hin). rewrite H1. auto.
+    + destruct (H3 _ Hin) as [[= ->]|[r Hr]]; [|discriminate]. rewrite H1. auto.
+    + destruct (B2 x Hin). rewrite H1. auto.
+    + destruct (H3 _ Hin) as [Hr|[r Hr]]; discriminate.
+  - destruct (wake_reveals_sk st Hp) as [H1 H2]. apply (BInv_same st); auto. apply wake_reveals_outputs.
+Qed.
+
+Lemma run_binv st evs outs : PInv st -> BInv st outs -> BInv (fst (run st evs)) (outs ++ snd (run st evs)).
+Proof.
+  revert st outs. induction evs as [|e evs IH]; intros st outs HP HB; simpl; [now rewrite app_nil_r|].
+  assert (H1 := step_inv st e HP). assert (H2 := step_binv st e outs HP HB).
+  destruct (step st e) as [st1 o1]. simpl in *. specialize (IH st1 (outs ++ o1) H1 H2).
+  destruct (run st1 evs) as [st2 o2]. simpl in *. now rewrite app_assoc.
+Qed.
+
+(* whatever key (commitment) the party broadcast in a run is the key of (the commitment to) its final secret *)
+Theorem broadcasts_own_key evs :
+  (forall v, In (BcastReveal v) (outputs evs) -> v = pub (sk (final evs))) /\
+  (forall c, In (BcastCommit c) (outputs evs) -> c = H (pub (sk (final evs)))).
+Proof.
+  assert (HB : BInv init []) by (split; intros x []).
+  assert (HP : PInv init) by reflexivity.
+  destruct (run_binv init evs [] HP HB) as [B1 B2]. simpl in *.
+  split; intros x Hin; [apply (B1 x Hin)|apply (B2 x Hin)].
+Qed.
+
+Lemma done_sk evs sk0 pkl tpk : ph (final evs) = Done sk0 pkl tpk -> sk (final evs) = sk0.
+Proof.
+  intros Hd. assert (HI : PInv (final evs)) by (apply run_inv; reflexivity).
+  unfold PInv in HI. rewrite Hd in HI. destruct HI as [_ (H3 & _)]. exact H3.
+Qed.
+
+(* ================================================================ completion (for C01: the honest run) *)
+Lemma in_lookup {A} (m : list (nat * A)) k v : NoDup (keys m) -> In (k, v) m -> lookup m k = Some v.
+Proof.
+  induction m as [|[k' v'] m IH]; simpl; intros Hn Hin; [contradiction|]. inversion Hn as [|? ? Hnot Hn']; subst.
+  destruct Hin as [[= -> ->]|Hin]; [now rewrite Nat.eqb_refl|].
+  destruct (Nat.eqb_spec k' k) as [->|Hne]; [|auto]. exfalso. apply Hnot. apply (in_map fst) in Hin. exact Hin.
+Qed.
+
+Lemma validate_ok_intro cm pk :
+  (forall p v, In (p, v) pk -> p <> self -> exists c, lookup cm p = Some c /\ C_eqb (H v) c = true) ->
+  validate cm pk = VOk.
+Proof.
+  induction pk as [|[q w] pk IH]; simpl; intros Hall; auto.
+  destruct (Nat.eqb_spec q self) as [->|Hq]; [apply IH; intros; eapply Hall; eauto|].
+  destruct (Hall q w (or_introl eq_refl) Hq) as [c [-> ->]]. apply IH; intros; eapply Hall; eauto.
+Qed.
+
+Lemma cover_length {A} (m : list (nat * A)) (L : list nat) :
+  NoDup (keys m) -> incl (keys m) L -> NoDup L -> (forall p, In p L -> lookup m p <> None) -> length m = length L.
+Proof.
+  intros Hn Hi HL Hall. rewrite <- keys_length. apply Nat.le_antisymm; apply NoDup_incl_length; auto.
+  intros p Hp. specialize (Hall p Hp). destruct (lookup m p) eqn:E; [|congruence]. eapply lookup_some_keys; eauto.
+Qed.
+
+Lemma others_nodup : NoDup others.
+Proof. now apply NoDup_filter. Qed.
+
+Lemma set_length_new {A} (m : list (nat * A)) k v : ~ In k (keys m) -> length (set m k v) = length m + 1.
+Proof.
+  intros Hk. unfold set. rewrite app_length. simpl. f_equal.
+  induction m as [|[k' v'] m IH]; simpl in *; auto.
+  destruct (Nat.eqb_spec k' k) as [->|]; [tauto|]. simpl. f_equal. apply IH. tauto.
+Qed.
+
+Lemma set_extends_new {A} (m : list (nat * A)) k v : ~ In k (keys m) -> extends m (set m k v).
+Proof.
+  intros Hk k' x E. destruct (Nat.eq_dec k k') as [->|Hne].
+  - apply lookup_some_keys in E. contradiction.
+  - now rewrite lookup_set_other.
+Qed.
+
+(* the values the party will eventually hold: SH, CM, PK extend every intermediate store *)
+Section Completion.
+Variables (SH : list (nat * S)) (CM : list (nat * C)) (PK : list (nat * V)).
+Hypothesis HS : forall s, combine SH others (dealt self) = Some s -> lookup PK self = Some (pub s).
+Hypothesis HV : forall p v c, p <> self -> lookup PK p = Some v -> lookup CM p = Some c -> C_eqb (H v) c = true.
+Hypothesis HX : forall l, key_list PK parties = Some l -> crosscheck l = true.
+
+Definition below (st : state) : Prop := extends (shares st) SH /\ extends (commits st) CM /\ extends (pkeys st) PK.
+
+Lemma finish_done st : NInv st -> ph st = WaitReveals -> length (pkeys st) = n -> below st ->
+  exists a b c, ph (fst (finish st)) = Done a b c.
+Proof.
+  intros HN Hp Hl (Es & Ec & Ep). assert (HN' := HN). destruct HN' as (N1 & N2 & N3 & N4 & N5 & N6 & N7 & N8 & N9).
+  destruct (N7 (or_intror Hp)) as [N7a N7b]. assert (Hc : length (commits st) = n - 1) by auto.
+  unfold finish. rewrite validate_ok_intro.
+  - destruct (key_list (pkeys st) parties) as [l|] eqn:K.
+    + rewrite (HX l) by (eapply key_list_extends; eauto). simpl. eauto.
+    + exfalso. revert K. apply key_list_total. intros p Hpp. apply (full_cover (pkeys st) parties); auto.
+  - intros p v Hin Hne. assert (Lp : lookup (pkeys st) p = Some v) by (apply in_lookup; auto).
+    assert (Ho : In p others).
+    { apply others_spec. split; [|assumption]. apply N7a. eapply lookup_some_keys; eauto. }
+    destruct (lookup (commits st) p) as [c|] eqn:Lc.
+    + exists c. split; auto. eapply HV; eauto.
+    + exfalso. revert Lc. apply (full_cover (commits st) others); auto. now rewrite others_length.
+Qed.
+
+Lemma wake_reveals_done st : NInv st -> ph st = WaitReveals -> below st ->
+  (forall p, In p parties -> lookup (pkeys st) p <> None) -> exists a b c, ph (fst (wake_reveals st)) = Done a b c.
+Proof.
+  intros HN Hp Hb Hall. destruct HN as (N1 & N2 & N3 & N4 & N5 & N6 & N7 & N8 & N9) eqn:HNe.
+  destruct (N7 (or_intror Hp)) as [N7a N7b].
+  assert (Hl : length (pkeys st) = n) by (apply cover_length; auto).
+  unfold wake_reveals. rewrite Hl, Nat.eqb_refl. apply finish_done; auto.
+Qed.
+
+Lemma wake_commits_done st : NInv st -> ph st = WaitCommits -> below st -> length (commits st) = n - 1 ->
+  (forall p, In p parties -> lookup (pkeys st) p <> None) -> exists a b c, ph (fst (wake_commits st)) = Done a b c.
+Proof.
+  intros HN Hp Hb Hc Hall. unfold wake_commits. rewrite Hc, Nat.eqb_refl.
+  destruct (lookup (pkeys st) self) eqn:L; [|exfalso; apply (Hall self); auto].
+  assert (H1 : NInv (set_ph st WaitReveals)) by (apply NInv_to_reveals; auto).
+  destruct (wake_reveals_done (set_ph st WaitReveals) H1 eq_refl Hb Hall) as (a & b & c & Hd).
+  destruct (wake_reveals (set_ph st WaitReveals)). simpl in *. eauto.
+Qed.
+
+Lemma wake_shares_done st : NInv st -> sk st = dealt self -> ph st = WaitShares -> below st ->
+  length (shares st) = n - 1 -> length (commits st) = n - 1 ->
+  (forall p, In p others -> lookup (pkeys st) p <> None) -> exists a b c, ph (fst (wake_shares st)) = Done a b c.
+Proof.
+  intros HN Hs Hp (Es & Ec & Ep) Hls Hlc Hall. assert (HN' := HN).
+  destruct HN' as (N1 & N2 & N3 & N4 & N5 & N6 & N7 & N8 & N9).
+  unfold wake_shares. rewrite Hls, Nat.eqb_refl.
+  destruct (combine (shares st) others (sk st)) as [s|] eqn:Ecomb.
+  - assert (Hself : ~ In self (keys (pkeys st))).
+    { intros Hin. apply (N6 Hp) in Hin. apply others_spec in Hin. tauto. }
+    assert (HPK : lookup PK self = Some (pub s)).
+    { apply HS. rewrite <- Hs. eapply combine_extends; eauto. }
+    match goal with |- context [wake_commits ?x] => assert (H2 := wake_commits_done x); destruct (wake_commits x) end.
+    apply H2; auto.
+    + unfold NInv. simpl. repeat split; auto; try discriminate.
+      * now apply keys_set_nodup.
+      * apply keys_set_incl; [|exact self_in]. intros x Hx. apply others_incl. apply (N6 Hp). exact Hx.
+      * rewrite lookup_set_same. discriminate.
+    + split; [exact Es|]. split; [exact Ec|]. simpl. intros k v E.
+      destruct (Nat.eq_dec self k) as [<-|Hne]; [rewrite lookup_set_same in E; congruence|].
+      rewrite lookup_set_other in E by assumption. auto.
+    + simpl. intros p Hpp. destruct (Nat.eq_dec self p) as [<-|Hne]; [rewrite lookup_set_same; discriminate|].
+      rewrite lookup_set_other by assumption. apply Hall. apply others_spec. split; auto.
+  - exfalso. revert Ecomb. apply combine_total. intros p Hpp.
+    apply (full_cover (shares st) others); auto. now rewrite others_length.
+Qed.
+
+Lemma finish_pkeys st : pkeys (fst (finish st)) = pkeys st.
+Proof.
+  unfold finish. destruct (validate (commits st) (pkeys st)); try reflexivity.
+  destruct (key_list (pkeys st) parties) as [l|]; try reflexivity. destruct (crosscheck l); reflexivity.
+Qed.
+Lemma wake_reveals_pkeys st : pkeys (fst (wake_reveals st)) = pkeys st.
+Proof. unfold wake_reveals. destruct (_ =? _); [apply finish_pkeys|reflexivity]. Qed.
+Lemma wake_commits_pkeys st : pkeys (fst (wake_commits st)) = pkeys st.
+Proof.
+  unfold wake_commits. destruct (_ =? _); auto. destruct (lookup (pkeys st) self); auto.
+  assert (Hs := wake_reveals_pkeys (set_ph st WaitReveals)). destruct (wake_reveals (set_ph st WaitReveals)). exact Hs.
+Qed.
+
+Lemma wake_pkeys st : pkeys (fst (wake st)) = pkeys st \/
+  (ph st = WaitShares /\ exists v, pkeys (fst (wake st)) = set (pkeys st) self v).
+Proof.
+  unfold wake. destruct (waiting (ph st)); auto. destruct (ctx_done st); auto.
+  destruct (ph st) eqn:Hp; auto.
+  - unfold wake_shares. destruct (_ =? _); auto. destruct (combine (shares st) others (sk st)); auto. right. split; auto.
+    match goal with |- context [wake_commits ?x] => assert (Hs := wake_commits_pkeys x); destruct (wake_commits x) end.
+    simpl in *. eauto.
+  - left. apply wake_commits_pkeys.
+  - left. apply wake_reveals_pkeys.
+Qed.
+
+Lemma step_extends st e : NInv st -> ev_ok e ->
+  extends (shares st) (shares (fst (step st e))) /\ extends (commits st) (commits (fst (step st e))) /\
+  extends (pkeys st) (pkeys (fst (step st e))).
+Proof.
+  intros HN Hok. destruct e as [f v|f c|f [v|]| |]; simpl; auto using extends_refl, extends_put.
+  destruct (wake_same st) as (W1 & W2 & _). rewrite W1, W2. repeat split; auto using extends_refl.
+  destruct (wake_pkeys st) as [->|[Hp [v ->]]]; [apply extends_refl|].
+  apply set_extends_new. destruct HN as (_ & _ & _ & _ & _ & N6 & _).
+  intros Hin. apply (N6 Hp) in Hin. apply others_spec in Hin. tauto.
+Qed.
+
+Lemma run_extends st evs : NInv st -> Forall ev_ok evs ->
+  extends (shares st) (shares (fst (run st evs))) /\ extends (commits st) (commits (fst (run st evs))) /\
+  extends (pkeys st) (pkeys (fst (run st evs))).
+Proof.
+  revert st. induction evs as [|e evs IH]; intros st HN Hok; [simpl; auto using extends_refl|].
+  inversion Hok; subst. rewrite run_cons_fst.
+  destruct (step_extends st e HN) as (E1 & E2 & E3); auto.
+  destruct (IH (fst (step st e))) as (F1 & F2 & F3); auto using step_ninv.
+  repeat split; eapply extends_trans; eauto.
+Qed.
+
+Lemma done_absorbing st e a b c : ph st = Done a b c -> ph (fst (step st e)) = Done a b c.
+Proof.
+  intros Hd. destruct e as [f v|f x|f [v|]| |]; simpl; auto. unfold wake. now rewrite Hd.
+Qed.
+
+Lemma run_done_absorbing st evs a b c : ph st = Done a b c -> ph (fst (run st evs)) = Done a b c.
+Proof.
+  revert st. induction evs as [|e evs IH]; intros st Hd; auto. rewrite run_cons_fst. apply IH. now apply done_absorbing.
+Qed.
+
+Lemma wake_reveals_nf st : NInv st -> ph st = WaitReveals -> below st -> ph (fst (wake_reveals st)) <> Failed.
+Proof.
+  intros HN Hp Hb. unfold wake_reveals. destruct (Nat.eqb_spec (length (pkeys st)) n) as [E|E].
+  - destruct (finish_done st HN Hp E Hb) as (a & b & c & ->). discriminate.
+  - simpl. congruence.
+Qed.
+
+Lemma wake_commits_nf st : NInv st -> ph st = WaitCommits -> below st -> ph (fst (wake_commits st)) <> Failed.
+Proof.
+  intros HN Hp Hb. unfold wake_commits. destruct (Nat.eqb_spec (length (commits st)) (n - 1)) as [E|E]; [|simpl; congruence].
+  destruct (lookup (pkeys st) self) eqn:L; [|simpl; discriminate].
+  assert (H1 : NInv (set_ph st WaitReveals)) by (apply NInv_to_reveals; auto).
+  assert (H2 := wake_reveals_nf (set_ph st WaitReveals) H1 eq_refl Hb).
+  destruct (wake_reveals (set_ph st WaitReveals)). exact H2.
+Qed.
+
+Lemma after_combine st s : NInv st -> sk st = dealt self -> ph st = WaitShares -> below st ->
+  combine (shares st) others (sk st) = Some s ->
+  let st1 := mkState (shares st) (commits st) (set (pkeys st) self (pub s)) s WaitCommits (ctx_done st) in
+  NInv st1 /\ below st1.
+Proof.
+  intros HN Hs Hp (Es & Ec & Ep) Ecomb. destruct HN as (N1 & N2 & N3 & N4 & N5 & N6 & N7 & N8 & N9).
+  assert (HPK : lookup PK self = Some (pub s)).
+  { apply HS. rewrite <- Hs. eapply combine_extends; eauto. }
+  split.
+  - unfold NInv. simpl. repeat split; auto; try discriminate.
+    + now apply keys_set_nodup.
+    + apply keys_set_incl; [|exact self_in]. intros x Hx. apply others_incl. apply (N6 Hp). exact Hx.
+    + rewrite lookup_set_same. discriminate.
+  - split; [exact Es|]. split; [exact Ec|]. simpl. intros k v E.
+    destruct (Nat.eq_dec self k) as [<-|Hne]; [rewrite lookup_set_same in E; congruence|].
+    rewrite lookup_set_other in E by assumption. auto.
+Qed.
+
+Lemma wake_shares_nf st : NInv st -> sk st = dealt self -> ph st = WaitShares -> below st ->
+  ph (fst (wake_shares st)) <> Failed.
+Proof.
+  intros HN Hs Hp Hb. unfold wake_shares. destruct (_ =? _); [|simpl; congruence].
+  destruct (combine (shares st) others (sk st)) as [s|] eqn:Ecomb; [|simpl; discriminate].
+  destruct (after_combine st s HN Hs Hp Hb Ecomb) as [H1 H2].
+  match goal with |- context [wake_commits ?x] => assert (H3 := wake_commits_nf x H1 eq_refl H2); destruct (wake_commits x) end.
+  exact H3.
+Qed.
+
+Lemma finish_ctx st : ctx_done (fst (finish st)) = ctx_done st.
+Proof.
+  unfold finish. destruct (validate (commits st) (pkeys st)); try reflexivity.
+  destruct (key_list (pkeys st) parties) as [l|]; try reflexivity. destruct (crosscheck l); reflexivity.
+Qed.
+Lemma wake_reveals_ctx st : ctx_done (fst (wake_reveals st)) = ctx_done st.
+Proof. unfold wake_reveals. destruct (_ =? _); [apply finish_ctx|reflexivity]. Qed.
+Lemma wake_commits_ctx st : ctx_done (fst (wake_commits st)) = ctx_done st.
+Proof.
+  unfold wake_commits. destruct (_ =? _); auto. destruct (lookup (pkeys st) self); auto.
+  assert (Hs := wake_reveals_ctx (set_ph st WaitReveals)). destruct (wake_reveals (set_ph st WaitReveals)). exact Hs.
+Qed.
+Lemma wake_ctx st : ctx_done (fst (wake st)) = ctx_done st.
+Proof.
+  unfold wake. destruct (waiting (ph st)); auto. destruct (ctx_done st) eqn:Hc; auto.
+  destruct (ph st); auto.
+  - unfold wake_shares. destruct (_ =? _); auto. destruct (combine (shares st) others (sk st)); auto.
+    match goal with |- context [wake_commits ?x] => assert (Hs := wake_commits_ctx x); destruct (wake_commits x) end.
+    simpl in *. congruence.
+  - rewrite wake_commits_ctx. exact Hc.
+  - rewrite wake_reveals_ctx. exact Hc.
+Qed.
+
+Lemma step_nf st e : NInv st -> PInv st -> ctx_done st = false -> ph st <> Failed -> below st ->
+  e <> CtxDone -> ctx_done (fst (step st e)) = false /\ ph (fst (step st e)) <> Failed.
+Proof.
+  intros HN HP Hc Hf Hb He. destruct e as [f v|f c|f [v|]| |]; simpl; auto; [|congruence].
+  split; [now rewrite wake_ctx|]. unfold wake. destruct (waiting (ph st)) eqn:Hw; [|auto]. rewrite Hc.
+  unfold PInv in HP. destruct (ph st) eqn:Hp; try discriminate.
+  - now apply wake_shares_nf.
+  - now apply wake_commits_nf.
+  - now apply wake_reveals_nf.
+Qed.
+
+Definition no_ctx (evs : list event) : Prop := Forall (fun e => e <> CtxDone) evs.
+
+Lemma below_trans st st' : extends (shares st) (shares st') -> extends (commits st) (commits st') ->
+  extends (pkeys st) (pkeys st') -> below st' -> below st.
+Proof. intros E1 E2 E3 (B1 & B2 & B3). repeat split; eapply extends_trans; eauto. Qed.
+
+Lemma run_good evs : forall st, NInv st -> PInv st -> ctx_done st = false -> ph st <> Failed ->
+  Forall ev_ok evs -> no_ctx evs -> below (fst (run st evs)) ->
+  NInv (fst (run st evs)) /\ PInv (fst (run st evs)) /\ ctx_done (fst (run st evs)) = false /\
+  ph (fst (run st evs)) <> Failed.
+Proof.
+  induction evs as [|e evs IH]; intros st HN HP Hc Hf Hok Hnc Hb; [simpl; auto|].
+  inversion Hok; subst. inversion Hnc; subst. rewrite run_cons_fst in *.
+  assert (Hbst : below st).
+  { destruct (run_extends st (e :: evs) HN Hok) as (E1 & E2 & E3). rewrite run_cons_fst in *.
+    eapply below_trans; eauto. }
+  destruct (step_nf st e HN HP Hc Hf Hbst) as [Hc' Hf']; auto.
+  apply IH; auto using step_ninv, step_inv.
+Qed.
+
+Lemma wake_done st : NInv st -> PInv st -> ctx_done st = false -> ph st <> Failed -> below st ->
+  length (shares st) = n - 1 -> length (commits st) = n - 1 ->
+  (forall p, In p others -> lookup (pkeys st) p <> None) -> exists a b c, ph (fst (wake st)) = Done a b c.
+Proof.
+  intros HN HP Hc Hf Hb Hls Hlc Hall. assert (HN' := HN). destruct HN' as (N1 & N2 & N3 & N4 & N5 & N6 & N7 & N8 & N9).
+  assert (Hpar : ph st = WaitCommits \/ ph st = WaitReveals -> forall p, In p parties -> lookup (pkeys st) p <> None).
+  { intros Hp p Hpp. destruct (N7 Hp) as [_ Hs]. destruct (Nat.eq_dec p self) as [->|Hne]; auto.
+    apply Hall. apply others_spec. auto. }
+  unfold wake. rewrite Hc. unfold PInv in HP. destruct (ph st) eqn:Hp; simpl; eauto; try congruence.
+  - now apply wake_shares_done.
+  - apply wake_commits_done; auto.
+  - apply wake_reveals_done; auto.
+Qed.
+
+(* A party that is never cancelled, hears only from the other participants, and is woken once after it holds a share,
+   a commitment and a key of every other participant, returns Ok -- provided the commitments match the keys and the
+   cross-check accepts the key list (HV, HX: discharged for honest peers in DKGSystem / DKGAlg). *)
+Theorem completes a b : Forall ev_ok (a ++ Wake :: b) -> no_ctx (a ++ Wake :: b) -> below (final (a ++ Wake :: b)) ->
+  length (shares (final a)) = n - 1 -> length (commits (final a)) = n - 1 ->
+  (forall p, In p others -> lookup (pkeys (final a)) p <> None) ->
+  exists s l t, ph (final (a ++ Wake :: b)) = Done s l t.
+Proof.
+  intros Hok Hnc Hb Hls Hlc Hall. unfold final in *. rewrite run_app in *. cbn [fst] in *.
+  apply Forall_app in Hok. destruct Hok as [Hoka Hokb]. apply Forall_app in Hnc. destruct Hnc as [Hnca Hncb].
+  set (sa := fst (run init a)) in *.
+  assert (HNa : NInv sa) by (apply run_ninv; auto using NInv_init).
+  assert (Hba : below sa).
+  { destruct (run_extends sa (Wake :: b) HNa Hokb) as (E1 & E2 & E3). eapply below_trans; eauto. }
+  destruct (run_good a init NInv_init) as (G1 & G2 & G3 & G4); auto; try reflexivity; try discriminate.
+  fold sa in G1, G2, G3, G4.
+  destruct (wake_done sa G1 G2 G3 G4 Hba Hls Hlc Hall) as (s & l & t & Hd).
+  exists s, l, t. rewrite run_cons_fst. apply run_done_absorbing. exact Hd.
+Qed.
+
+End Completion.
+
+(* ================================================================ what has been broadcast by which phase *)
+Definition past_shares (p : phase) : Prop := p <> WaitShares.
+Definition past_commits (p : phase) : Prop := p <> WaitShares /\ p <> WaitCommits.
+
+Definition EInv (st : state) (outs : list output) : Prop :=
+  (past_shares (ph st) -> exists c, In (BcastCommit c) outs) /\
+  (past_commits (ph st) -> exists v, In (BcastReveal v) outs).
+
+Lemma wake_reveals_phase st : ph st = WaitReveals -> past_commits (ph (fst (wake_reveals st))).
+Proof.
+  intros Hp. unfold wake_reveals. destruct (_ =? _); [|simpl; rewrite Hp; split; discriminate].
+  unfold finish. destruct (validate (commits st) (pkeys st)); simpl; try (split; discriminate).
+  destruct (key_list (pkeys st) parties) as [l|]; simpl; try (split; discriminate).
+  destruct (crosscheck l); simpl; split; discriminate.
+Qed.
+
+Lemma wake_commits_emits st : ph st = WaitCommits -> lookup (pkeys st) self <> None ->
+  (ph (fst (wake_commits st)) = WaitCommits /\ length (commits st) <> n - 1) \/
+  (past_commits (ph (fst (wake_commits st))) /\ exists v, In (BcastReveal v) (snd (wake_commits st))).
+Proof.
+  intros Hp Hs. unfold wake_commits. destruct (Nat.eqb_spec (length (commits st)) (n - 1)) as [E|E]; [|left; auto].
+  destruct (lookup (pkeys st) self) as [pk|]; [|congruence]. right.
+  assert (H1 := wake_reveals_phase (set_ph st WaitReveals) eq_refl).
+  destruct (wake_reveals (set_ph st WaitReveals)) as [st' o]. simpl in *. split; eauto.
+Qed.
+
+Lemma step_einv st e outs : NInv st -> ctx_done st = false -> EInv st outs ->
+  EInv (fst (step st e)) (outs ++ snd (step st e)).
+Proof.
+  intros HN Hc [E1 E2].
+  assert (Hkeep : forall st', ph st' = ph st -> EInv st' (outs ++ [])).
+  { intros st' Hp. rewrite app_nil_r. split; rewrite Hp; auto. }
+  destruct e as [f v|f c|f [v|]| |]; simpl; try (apply Hkeep; reflexivity).
+  unfold wake. destruct (waiting (ph st)) eqn:Hw; [|apply Hkeep; reflexivity]. rewrite Hc.
+  destruct HN as (N1 & N2 & N3 & N4 & N5 & N6 & N7 & N8 & N9).
+  destruct (ph st) eqn:Hp; try discriminate.
+  - unfold wake_shares. destruct (Nat.eqb_spec (length (shares st)) (n - 1)) as [El|El]; [|apply Hkeep; simpl; auto].
+    destruct (combine (shares st) others (sk st)) as [s|] eqn:Ecomb.
+    + match goal with |- context [wake_commits ?x] =>
+        destruct (wake_commits_emits x eq_refl) as [[H1 _]|[H1 [v Hv]]];
+          [simpl; rewrite lookup_set_same; discriminate| |]; destruct (wake_commits x) as [st' o] end; simpl in *.
+      * split; [intros _; exists (H (pub s)); apply in_or_app; right; left; reflexivity|].
+        intros [_ Hx]. congruence.
+      * split; [intros _; exists (H (pub s)); apply in_or_app; right; left; reflexivity|].
+        intros _. exists v. apply in_or_app. right. right. exact Hv.
+    + exfalso. revert Ecomb. apply combine_total. intros p Hpp.
+      apply (full_cover (shares st) others); auto. now rewrite others_length.
+  - destruct (N7 (or_introl eq_refl)) as [_ Hs].
+    destruct (wake_commits_emits st Hp Hs) as [[H1 _]|[H1 [v Hv]]]; destruct (wake_commits st) as [st' o]; simpl in *.
+    + split; [intros _; destruct E1 as [c Hc']; [unfold past_shares; congruence|exists c; apply in_or_app; auto]|].
+      intros [_ Hx]. congruence.
+    + split; [intros _; destruct E1 as [c Hc']; [unfold past_shares; congruence|exists c; apply in_or_app; auto]|].
+      intros _. exists v. apply in_or_app. auto.
+  - assert (H1 := wake_reveals_phase st Hp). destruct (wake_reveals st) as [st' o]. simpl in *.
+    assert (P1 : past_shares WaitReveals) by (unfold past_shares; discriminate).
+    assert (P2 : past_commits WaitReveals) by (split; discriminate).
+    destruct (E1 P1) as [c Hc']. destruct (E2 P2) as [v Hv].
+    split; intros _; [exists c|exists v]; apply in_or_app; auto.
+Qed.
+
+Lemma run_einv st evs outs : NInv st -> ctx_done st = false -> Forall ev_ok evs -> no_ctx evs -> EInv st outs ->
+  EInv (fst (run st evs)) (outs ++ snd (run st evs)).
+Proof.
+  revert st outs. induction evs as [|e evs IH]; intros st outs HN Hc Hok Hnc HE; simpl; [now rewrite app_nil_r|].
+  inversion Hok as [|? ? Oe Oevs]; subst. inversion Hnc as [|? ? Ce Cevs]; subst.
+  assert (G1 := step_ninv st e HN Oe). assert (G2 := step_einv st e outs HN Hc HE).
+  assert (G3 : ctx_done (fst (step st e)) = false).
+  { destruct e as [f v|f c|f [v|]| |]; simpl; auto; [now rewrite wake_ctx|congruence]. }
+  destruct (step st e) as [st1 o1]. simpl in *. specialize (IH st1 (outs ++ o1) G1 G3 Oevs Cevs G2).
+  destruct (run st1 evs) as [st2 o2]. simpl in *. now rewrite app_assoc.
+Qed.
+
+
+Lemma wake_commits_phase st : ph st = WaitCommits -> past_shares (ph (fst (wake_commits st))).
+Proof.
+  intros Hp. unfold wake_commits, past_shares. destruct (_ =? _); [|simpl; congruence].
+  destruct (lookup (pkeys st) self); [|simpl; discriminate].
+  assert (H1 := wake_reveals_phase (set_ph st WaitReveals) eq_refl).
+  destruct (wake_reveals (set_ph st WaitReveals)). simpl in *. apply H1.
+Qed.
+
+Lemma step_past st e :
+  (past_shares (ph st) -> past_shares (ph (fst (step st e)))) /\
+  (past_commits (ph st) -> past_commits (ph (fst (step st e)))).
+Proof.
+  destruct e as [f v|f c|f [v|]| |]; simpl; auto.
+  unfold wake. destruct (waiting (ph st)) eqn:Hw; auto.
+  destruct (ctx_done st); [split; intros _; simpl; [discriminate|split; discriminate]|].
+  destruct (ph st) eqn:Hp; try discriminate.
+  - split; [intros Hx; exfalso; apply Hx; reflexivity|intros [Hx _]; exfalso; apply Hx; reflexivity].
+  - split; [intros _; now apply wake_commits_phase|intros [_ Hx]; exfalso; apply Hx; reflexivity].
+  - split; intros _; [apply (wake_reveals_phase st Hp)|apply (wake_reveals_phase st Hp)].
+Qed.
+
+Lemma run_past st evs :
+  (past_shares (ph st) -> past_shares (ph (fst (run st evs)))) /\
+  (past_commits (ph st) -> past_commits (ph (fst (run st evs)))).
+Proof.
+  revert st. induction evs as [|e evs IH]; intros st; [simpl; auto|]. rewrite run_cons_fst.
+  destruct (step_past st e) as [S1 S2]. destruct (IH (fst (step st e))) as [I1 I2]. auto.
+Qed.
+
+Lemma EInv_init : EInv init [].
+Proof. split; [intros Hx; exfalso; apply Hx; reflexivity|intros [Hx _]; exfalso; apply Hx; reflexivity]. Qed.
+
+(* a party that is never cancelled and is woken once while holding all shares has broadcast its commitment;
+   if it also held all commitments at that moment it has broadcast its key *)
+Theorem emits_commit a b : Forall ev_ok (a ++ Wake :: b) -> no_ctx (a ++ Wake :: b) ->
+  length (shares (final a)) = n - 1 -> exists c, In (BcastCommit c) (outputs (a ++ Wake :: b)).
+Proof.
+  intros Hok Hnc Hls.
+  destruct (run_einv init (a ++ Wake :: b) [] NInv_init eq_refl Hok Hnc EInv_init) as [E1 _]. apply E1.
+  unfold final in *. rewrite run_app. cbn [fst]. apply Forall_app in Hok. destruct Hok as [Hoka _].
+  set (sa := fst (run init a)) in *. rewrite run_cons_fst.
+  destruct (run_past (fst (step sa Wake)) b) as [R1 _]. apply R1. clear R1.
+  assert (HN : NInv sa) by (apply run_ninv; auto using NInv_init).
+  simpl. unfold wake, past_shares. destruct (waiting (ph sa)) eqn:Hw; [|simpl; destruct (ph sa); try discriminate].
+  unfold past_shares in *.
+  destruct (ctx_done sa); [simpl; discriminate|].
+  destruct (ph sa) eqn:Hp; try discriminate.
+  - unfold wake_shares. rewrite Hls, Nat.eqb_refl.
+    destruct (combine (shares sa) others (sk sa)); [|simpl; discriminate].
+    match goal with |- context [wake_commits ?x] => assert (H1 := wake_commits_phase x eq_refl); destruct (wake_commits x) end.
+    exact H1.
+  - now apply wake_commits_phase.
+  - apply (wake_reveals_phase sa Hp).
+Qed.
+
+Theorem emits_reveal a b : Forall ev_ok (a ++ Wake :: b) -> no_ctx (a ++ Wake :: b) ->
+  length (shares (final a)) = n - 1 -> length (commits (final a)) = n - 1 ->
+  exists v, In (BcastReveal v) (outputs (a ++ Wake :: b)).
+Proof.
+  intros Hok Hnc Hls Hlc.
+  destruct (run_einv init (a ++ Wake :: b) [] NInv_init eq_refl Hok Hnc EInv_init) as [_ E2]. apply E2.
+  unfold final in *. rewrite run_app. cbn [fst]. apply Forall_app in Hok. destruct Hok as [Hoka _].
+  set (sa := fst (run init a)) in *. rewrite run_cons_fst.
+  destruct (run_past (fst (step sa Wake)) b) as [_ R2]. apply R2. clear R2.
+  assert (HN : NInv sa) by (apply run_ninv; auto using NInv_init).
+  assert (Hc : ctx_done sa = false).
+  { apply Forall_app in Hnc. destruct Hnc as [Hnca _]. clear -Hnca. unfold sa.
+    assert (G : forall evs st, no_ctx evs -> ctx_done st = false -> ctx_done (fst (run st evs)) = false).
+    { induction evs as [|e evs IH]; intros st Hn Hc0; auto. inversion Hn; subst. rewrite run_cons_fst. apply IH; auto.
+      destruct e as [f v|f c|f [v|]| |]; simpl; auto; [now rewrite wake_ctx|congruence]. }
+    apply G; auto. }
+  destruct HN as (N1 & N2 & N3 & N4 & N5 & N6 & N7 & N8 & N9).
+  simpl. unfold wake. rewrite Hc. destruct (waiting (ph sa)) eqn:Hw.
+  - destruct (ph sa) eqn:Hp; try discriminate.
+    + unfold wake_shares. rewrite Hls, Nat.eqb_refl.
+      destruct (combine (shares sa) others (sk sa)) as [s|] eqn:Ecomb.
+      * match goal with |- context [wake_commits ?x] =>
+          destruct (wake_commits_emits x eq_refl) as [[_ H1]|[H1 _]];
+            [simpl; rewrite lookup_set_same; discriminate|simpl in H1; congruence|]; destruct (wake_commits x) end.
+        exact H1.
+      * exfalso. revert Ecomb. apply combine_total. intros p Hpp.
+        apply (full_cover (shares sa) others); auto. now rewrite others_length.
+    + destruct (N7 (or_introl eq_refl)) as [_ Hs].
+      destruct (wake_commits_emits sa Hp Hs) as [[_ H1]|[H1 _]]; [congruence|exact H1].
+    + apply (wake_reveals_phase sa Hp).
+  - simpl. destruct (ph sa); try discriminate; split; discriminate.
+Qed.
+
+(* ---------------------------------------------------------------- consequences used by the system-level proofs *)
+Lemma run_no_ctx evs : forall st, no_ctx evs -> ctx_done st = false -> ctx_done (fst (run st evs)) = false.
+Proof.
+  induction evs as [|e evs IH]; intros st Hn Hc0; auto. inversion Hn; subst. rewrite run_cons_fst. apply IH; auto.
+  destruct e as [f v|f c|f [v|]| |]; simpl; auto; [now rewrite wake_ctx|congruence].
+Qed.
+
+Theorem commit_past_shares evs c : In (BcastCommit c) (outputs evs) -> ph (final evs) <> WaitShares.
+Proof.
+  assert (HB : BInv init []) by (split; intros x []).
+  assert (HP : PInv init) by reflexivity.
+  destruct (run_binv init evs [] HP HB) as [_ B2]. simpl in *. intros Hin. apply (B2 c Hin).
+Qed.
+
+(* after combineShares, and unless cancelled: the secret is the own dealt share plus the stored shares, the own key is stored *)
+Theorem final_comb evs : Forall ev_ok evs -> no_ctx evs -> ph (final evs) <> WaitShares -> Comb (final evs).
+Proof.
+  intros Hok Hnc Hp. assert (HI : PInv (final evs)) by (apply run_inv; reflexivity).
+  assert (HN := never_panics evs Hok). assert (Hc := run_no_ctx evs init Hnc eq_refl). fold (final evs) in Hc.
+  unfold PInv in HI. destruct (ph (final evs)); try congruence; try tauto.
+  destruct HI as [HI|HI]; [congruence|exact HI].
+Qed.
+
+End DKG.
+
+Arguments ROk {S V}. Arguments RErr {S V}.
+Arguments WaitShares {S V}. Arguments WaitCommits {S V}. Arguments WaitReveals {S V}. Arguments Done {S V}.
+Arguments Failed {S V}. Arguments Panicked {S V}.
+Arguments DeliverShare {S V C}. Arguments DeliverCommit {S V C}. Arguments DeliverReveal {S V C}.
+Arguments Wake {S V C}. Arguments CtxDone {S V C}.
+Arguments SendShare {S V C}. Arguments BcastCommit {S V C}. Arguments BcastReveal {S V C}. Arguments Return {S V C}.
